@@ -53,7 +53,8 @@ type Contract struct {
 	FrameTags   []string
 	Pure        bool
 	Src         string
-	Lock        []Clause // lock discipline clauses (see guarded_by)
+	LockFree    []*Node  // mutexes that must not be held at environment calls and at return
+	LockTags    []string
 	modRefs     []string
 	Trusted     string
 }
@@ -96,6 +97,7 @@ type SpecDB struct {
 	Envs      map[string]*EnvSpec
 	Preds     map[string]*PredDef
 	Guards    []*GuardedBy
+	AtomicOnly []*GuardedBy
 	Tables    []*TableSpec
 	Files     []string
 	Errors    []string
@@ -154,7 +156,7 @@ func loadSpecs(repo, libDir string) *SpecDB {
 	return db
 }
 
-var clauseKeywords = []string{"rec", "func", "assume", "env", "pred", "spec", "table", "layout", "guarded_by", "requires", "ensures",
+var clauseKeywords = []string{"lockfree", "atomic_only", "rec", "func", "assume", "env", "pred", "spec", "table", "layout", "guarded_by", "requires", "ensures",
 	"modifies", "decreases", "forall-params", "loop", "frame-fresh", "pure", "log", "consts", "trusted", "end"}
 
 func startsWithKeyword(s string) string {
@@ -332,6 +334,22 @@ func (db *SpecDB) readFile(path, repo string) {
 			}
 			if cur != nil {
 				cur.ForallPars = append(cur.ForallPars, vars...)
+			}
+		case "lockfree":
+			tags, body := splitTags(rest)
+			items, err := parseExprList(body)
+			if err != nil {
+				fail(err)
+				continue
+			}
+			if cur != nil {
+				cur.LockFree = append(cur.LockFree, items...)
+				cur.LockTags = tags
+			}
+		case "atomic_only":
+			tags, body := splitTags(rest)
+			for _, f := range strings.Split(body, ",") {
+				db.AtomicOnly = append(db.AtomicOnly, &GuardedBy{Lock: "", Fields: []string{strings.TrimSpace(f)}, Pkg: pkg, Tags: tags})
 			}
 		case "frame-fresh":
 			tags, _ := splitTags(rest)
